@@ -94,11 +94,13 @@ class Refactoring:
         def calculate_to_path(p):
             if p is None:
                 return p
-            p = str(p)
+            p = Path(p)
             for from_, to in renames:
-                if p.startswith(str(from_)):
-                    p = str(to) + p[len(str(from_)):]
-            return Path(p)
+                # Only the renamed file itself and files below a renamed
+                # directory move; a sibling like `pkg2` of `pkg` does not.
+                if p == from_ or from_ in p.parents:
+                    p = to.joinpath(p.relative_to(from_))
+            return p
 
         renames = self.get_renames()
         return {
